@@ -388,8 +388,8 @@ def halo_clause(model, rep, funcs):
             widths, radii = [], []
 
             def on_call(interp, fn, node, callee, args, kwargs, env, _w=widths, _r=radii):
-                if isinstance(callee, ExtRef) and callee.name.split(".")[-1] in ("gaussian_laplace", "gaussian_filter") and len(args) >= 2:
-                    _w.append(args[1])
+                if isinstance(callee, ExtRef) and callee.name.split(".")[-1] in ("gaussian_laplace", "gaussian_filter") and (len(args) >= 2 or "sigma" in kwargs):
+                    _w.append(args[1] if len(args) >= 2 else kwargs["sigma"])
                 if isinstance(callee, FuncRef) and {x.name for x in callee.funcs} & {"find_maxima"} and len(args) >= 2:
                     _r.append(args[1])
 
